@@ -230,20 +230,20 @@ Definition py_pending_index (tms : list pytimer) : res nat :=
 
 (* the scheduling-related state of a BaseJob; __pending_timer is the element pj_pending of pj_timers *)
 Record pyjobstate := mkPyJobState {
-  pj_mark_delete : bool; pj_max_attempts : Z; pj_attempts : Z; pj_delay : bool; pj_skip_missing : bool;
-  pj_start : datetime; pj_stop : option datetime; pj_tzinfo : option Z; pj_timers : list pytimer; pj_pending : nat }.
-Definition set_pj_mark_delete (s : pyjobstate) (v : bool) : pyjobstate := mkPyJobState v (pj_max_attempts s) (pj_attempts s) (pj_delay s) (pj_skip_missing s) (pj_start s) (pj_stop s) (pj_tzinfo s) (pj_timers s) (pj_pending s).
-Definition set_pj_max_attempts (s : pyjobstate) (v : Z) : pyjobstate := mkPyJobState (pj_mark_delete s) v (pj_attempts s) (pj_delay s) (pj_skip_missing s) (pj_start s) (pj_stop s) (pj_tzinfo s) (pj_timers s) (pj_pending s).
-Definition set_pj_attempts (s : pyjobstate) (v : Z) : pyjobstate := mkPyJobState (pj_mark_delete s) (pj_max_attempts s) v (pj_delay s) (pj_skip_missing s) (pj_start s) (pj_stop s) (pj_tzinfo s) (pj_timers s) (pj_pending s).
-Definition set_pj_delay (s : pyjobstate) (v : bool) : pyjobstate := mkPyJobState (pj_mark_delete s) (pj_max_attempts s) (pj_attempts s) v (pj_skip_missing s) (pj_start s) (pj_stop s) (pj_tzinfo s) (pj_timers s) (pj_pending s).
-Definition set_pj_skip_missing (s : pyjobstate) (v : bool) : pyjobstate := mkPyJobState (pj_mark_delete s) (pj_max_attempts s) (pj_attempts s) (pj_delay s) v (pj_start s) (pj_stop s) (pj_tzinfo s) (pj_timers s) (pj_pending s).
-Definition set_pj_start (s : pyjobstate) (v : datetime) : pyjobstate := mkPyJobState (pj_mark_delete s) (pj_max_attempts s) (pj_attempts s) (pj_delay s) (pj_skip_missing s) v (pj_stop s) (pj_tzinfo s) (pj_timers s) (pj_pending s).
-Definition set_pj_stop (s : pyjobstate) (v : option datetime) : pyjobstate := mkPyJobState (pj_mark_delete s) (pj_max_attempts s) (pj_attempts s) (pj_delay s) (pj_skip_missing s) (pj_start s) v (pj_tzinfo s) (pj_timers s) (pj_pending s).
-Definition set_pj_tzinfo (s : pyjobstate) (v : option Z) : pyjobstate := mkPyJobState (pj_mark_delete s) (pj_max_attempts s) (pj_attempts s) (pj_delay s) (pj_skip_missing s) (pj_start s) (pj_stop s) v (pj_timers s) (pj_pending s).
-Definition set_pj_timers (s : pyjobstate) (v : list pytimer) : pyjobstate := mkPyJobState (pj_mark_delete s) (pj_max_attempts s) (pj_attempts s) (pj_delay s) (pj_skip_missing s) (pj_start s) (pj_stop s) (pj_tzinfo s) v (pj_pending s).
-Definition set_pj_pending (s : pyjobstate) (v : nat) : pyjobstate := mkPyJobState (pj_mark_delete s) (pj_max_attempts s) (pj_attempts s) (pj_delay s) (pj_skip_missing s) (pj_start s) (pj_stop s) (pj_tzinfo s) (pj_timers s) v.
+  pj_mark_delete : bool; pj_max_attempts : Z; pj_attempts : Z; pj_failed_attempts : Z; pj_delay : bool; pj_skip_missing : bool; pj_start : datetime; pj_stop : option datetime; pj_tzinfo : option Z; pj_timers : list pytimer; pj_pending : nat }.
+Definition set_pj_mark_delete (s : pyjobstate) (v : bool) : pyjobstate := mkPyJobState v (pj_max_attempts s) (pj_attempts s) (pj_failed_attempts s) (pj_delay s) (pj_skip_missing s) (pj_start s) (pj_stop s) (pj_tzinfo s) (pj_timers s) (pj_pending s).
+Definition set_pj_max_attempts (s : pyjobstate) (v : Z) : pyjobstate := mkPyJobState (pj_mark_delete s) v (pj_attempts s) (pj_failed_attempts s) (pj_delay s) (pj_skip_missing s) (pj_start s) (pj_stop s) (pj_tzinfo s) (pj_timers s) (pj_pending s).
+Definition set_pj_attempts (s : pyjobstate) (v : Z) : pyjobstate := mkPyJobState (pj_mark_delete s) (pj_max_attempts s) v (pj_failed_attempts s) (pj_delay s) (pj_skip_missing s) (pj_start s) (pj_stop s) (pj_tzinfo s) (pj_timers s) (pj_pending s).
+Definition set_pj_failed_attempts (s : pyjobstate) (v : Z) : pyjobstate := mkPyJobState (pj_mark_delete s) (pj_max_attempts s) (pj_attempts s) v (pj_delay s) (pj_skip_missing s) (pj_start s) (pj_stop s) (pj_tzinfo s) (pj_timers s) (pj_pending s).
+Definition set_pj_delay (s : pyjobstate) (v : bool) : pyjobstate := mkPyJobState (pj_mark_delete s) (pj_max_attempts s) (pj_attempts s) (pj_failed_attempts s) v (pj_skip_missing s) (pj_start s) (pj_stop s) (pj_tzinfo s) (pj_timers s) (pj_pending s).
+Definition set_pj_skip_missing (s : pyjobstate) (v : bool) : pyjobstate := mkPyJobState (pj_mark_delete s) (pj_max_attempts s) (pj_attempts s) (pj_failed_attempts s) (pj_delay s) v (pj_start s) (pj_stop s) (pj_tzinfo s) (pj_timers s) (pj_pending s).
+Definition set_pj_start (s : pyjobstate) (v : datetime) : pyjobstate := mkPyJobState (pj_mark_delete s) (pj_max_attempts s) (pj_attempts s) (pj_failed_attempts s) (pj_delay s) (pj_skip_missing s) v (pj_stop s) (pj_tzinfo s) (pj_timers s) (pj_pending s).
+Definition set_pj_stop (s : pyjobstate) (v : option datetime) : pyjobstate := mkPyJobState (pj_mark_delete s) (pj_max_attempts s) (pj_attempts s) (pj_failed_attempts s) (pj_delay s) (pj_skip_missing s) (pj_start s) v (pj_tzinfo s) (pj_timers s) (pj_pending s).
+Definition set_pj_tzinfo (s : pyjobstate) (v : option Z) : pyjobstate := mkPyJobState (pj_mark_delete s) (pj_max_attempts s) (pj_attempts s) (pj_failed_attempts s) (pj_delay s) (pj_skip_missing s) (pj_start s) (pj_stop s) v (pj_timers s) (pj_pending s).
+Definition set_pj_timers (s : pyjobstate) (v : list pytimer) : pyjobstate := mkPyJobState (pj_mark_delete s) (pj_max_attempts s) (pj_attempts s) (pj_failed_attempts s) (pj_delay s) (pj_skip_missing s) (pj_start s) (pj_stop s) (pj_tzinfo s) v (pj_pending s).
+Definition set_pj_pending (s : pyjobstate) (v : nat) : pyjobstate := mkPyJobState (pj_mark_delete s) (pj_max_attempts s) (pj_attempts s) (pj_failed_attempts s) (pj_delay s) (pj_skip_missing s) (pj_start s) (pj_stop s) (pj_tzinfo s) (pj_timers s) v.
 (* the object before __init__ has assigned its fields (every modelled field is assigned before it is read) *)
-Definition blank_pyjobstate : pyjobstate := mkPyJobState false 0 0 true false (mkDt 0 None) None None [] O.
+Definition blank_pyjobstate : pyjobstate := mkPyJobState false 0 0 0 true false (mkDt 0 None) None None [] O.
 (* sane_timing_types (recognised by template): typeguard's check_type of the timing list against the list type of the
    job type, exactly one entry for CYCLIC; any TypeError becomes SchedulerError.  typeguard itself is an oracle. *)
 Definition py_entry_sane (k : pyjobtype) (x : pytiming) : bool :=
